@@ -103,10 +103,21 @@ def _worker_inner(pid, item, seed):
         for v in r.violations:
             key = (v["clause"], v["ctx"])
             size = len(json.dumps(sc)) + 8 * len(r.choices)
+            if key not in agg["violations"] or not agg["violations"][key].get("fresh_ok"):
+                fresh_ok = bool(_still_fails(mod, sc, r.choices, key, fresh=True))
+            else:
+                fresh_ok = None
+            if fresh_ok is False and key in agg["violations"]:
+                agg["violations"][key]["count"] += 1
+                continue
             old = agg["violations"].get(key)
             if old is None or size < old["size"]:
+                if old is not None and old.get("fresh_ok") and fresh_ok is None and size >= old["size"]:
+                    old["count"] += 1
+                    continue
                 agg["violations"][key] = {"scenario": sc, "choices": r.choices, "violation": v, "size": size,
-                                          "digest": r.digest, "count": (old["count"] + 1 if old else 1)}
+                                          "digest": r.digest, "count": (old["count"] + 1 if old else 1),
+                                          "fresh_ok": bool(fresh_ok) if fresh_ok is not None else bool(_still_fails(mod, sc, r.choices, key, fresh=True))}
             else:
                 old["count"] += 1
     agg["wall"] = time.time() - t0
@@ -117,8 +128,11 @@ def _worker_inner(pid, item, seed):
 
 
 # ------------------------------------------------------------------------------------ minimise
-def _still_fails(mod, sc, choices, key):
+def _still_fails(mod, sc, choices, key, fresh=False):
     from sim.harness import InvalidScenario
+    if fresh:
+        from sim import seams
+        seams.reinstall()
     try:
         r = mod.run(sc, choices=choices)
     except InvalidScenario:
@@ -322,7 +336,8 @@ def run_check(pid, tier, seed, jobs=None, budget_scale=1.0):
                 for v in a["violations"]:
                     key = (v["violation"]["clause"], v["violation"]["ctx"])
                     old = total["violations"].get(key)
-                    if old is None or v["size"] < old["size"]:
+                    if old is None or (v.get("fresh_ok") and not old.get("fresh_ok")) or \
+                            (v["size"] < old["size"] and bool(v.get("fresh_ok")) >= bool(old.get("fresh_ok"))):
                         cnt = (old["count"] if old else 0) + v["count"]
                         total["violations"][key] = v
                         v["count"] = cnt
@@ -355,7 +370,10 @@ def run_check(pid, tier, seed, jobs=None, budget_scale=1.0):
             sc2, ch2, nruns = minimise(mod, sc, ch, key)
         except Exception:
             sc2, ch2, nruns = sc, ch, 0
-        chk = _still_fails(mod, sc2, ch2, key)
+        chk = _still_fails(mod, sc2, ch2, key, fresh=True)
+        if not chk and _still_fails(mod, sc, ch, key, fresh=True):
+            sc2, ch2 = sc, ch  # the minimised form depended on state left by earlier runs: keep the original
+            chk = _still_fails(mod, sc2, ch2, key, fresh=True)
         if chk:
             r2, viol2 = chk
             path = write_replay(pid, seed, sc2, ch2, viol2, r2.digest)
